@@ -73,6 +73,11 @@ def _root(e: ast.AST) -> ast.AST:
     return e
 
 
+def _is_deep_copy(e: ast.AST) -> bool:
+    """copy.deepcopy(x) / json.loads(s): every sub-object of the result is new as well"""
+    return isinstance(e, ast.Call) and u(e.func) in ("copy.deepcopy", "deepcopy", "json.loads")
+
+
 class _FunctionFreshness:
     def __init__(self, fn: ast.FunctionDef, params: List[str], method_returns=None):
         self.fn = fn
@@ -92,14 +97,14 @@ class _FunctionFreshness:
                 pairs: List[Tuple[str, str]] = []
                 if isinstance(n, ast.AnnAssign) and n.value is not None and isinstance(n.target, ast.Name):
                     pairs.append((n.target.id, self.classify(n.value)))
-                    if isinstance(n.value, (ast.Dict, ast.List)):
+                    if isinstance(n.value, (ast.Dict, ast.List)) or _is_deep_copy(n.value):
                         self.literal_roots.add(n.target.id)
                 if isinstance(n, ast.Assign):
                     c = self.classify(n.value)
                     for t in n.targets:
                         if isinstance(t, ast.Name):
                             pairs.append((t.id, c))
-                            if isinstance(n.value, (ast.Dict, ast.List)):
+                            if isinstance(n.value, (ast.Dict, ast.List)) or _is_deep_copy(n.value):
                                 self.literal_roots.add(t.id)
                             ec = self.classify_elem(n.value) if isinstance(n.value, (ast.ListComp, ast.GeneratorExp, ast.List, ast.Tuple)) else None
                             if ec is not None:
@@ -162,7 +167,14 @@ class _FunctionFreshness:
             if isinstance(e.func, ast.Attribute) and e.func.attr in ("copy", "astype", "reshape", "flatten", "tolist", "take", "lower", "format", "title", "strftime", "join", "split", "intersection", "union", "keys", "values", "items"):
                 return "Fresh" if e.func.attr not in ("reshape",) else self.classify(e.func.value)
             if isinstance(e.func, ast.Attribute) and e.func.attr in ("get", "pop", "setdefault"):
-                r = _root(e.func.value)
+                r = e.func.value
+                # d.get("a", {}).get("b", {}) is a sub-object of d as well
+                while True:
+                    r = _root(r)
+                    if isinstance(r, ast.Call) and isinstance(r.func, ast.Attribute) and r.func.attr in ("get", "setdefault"):
+                        r = r.func.value
+                        continue
+                    break
                 if isinstance(r, ast.Name) and r.id in self.literal_roots:
                     return "Fresh"  # sub-object of a literal created in this function
                 c = self.classify(e.func.value)
